@@ -21,7 +21,7 @@ EXPLANATION = (
     "path of __init__ from bit 2 of the answer, every returned segment fed once, comparison with the server's '<H' "
     "dominates the final return, mismatch aborts with 0x05040004 and raises; R6 end confirmation iff done and no error; "
     "block boundary acknowledged at _ackseq >= blksize or the last segment, _ackseq wraps after a full block; R7 the "
-    "initiate and end responses are validated before use (clause shared with C07.R3)."
+    "initiate and end responses are validated before use (clause shared with C07.R3). R8 no class-level mutable object is mutated in place by instances (each node/client/map/dictionary has its own state)."
 )
 ASSUMPTIONS = [
     "not decided: loss/corruption runs; server assumed standard-conformant",
@@ -245,6 +245,10 @@ def run(chk):
     from . import c07
     from .common import RuleProxy
     c07.validate_sites(RuleProxy(chk, "R7"), classes=("BlockUploadStream",))
+
+    # ------------------------------------------------------------------ R8 instances are independent (shared clause)
+    from . import shared as _shared
+    _shared.isolation(chk, "R8", rels=['canopen/sdo/client.py', 'canopen/sdo/base.py'])
 
 
 def _dominated_by_seq(frt, r) -> bool:
